@@ -324,6 +324,51 @@ def _run(tier, seed, t0, REPO):
             report(check_roundtrips(item, data), 'roundtrip', 'generated', data)
             if len(samples) < 3:
                 samples.append(data)
+    # other item kinds: datatypes (uniform and NON-uniform recursion), recursive functions, inductive predicates:
+    # every accepted item must generate well-typed extensions and survive the round trips
+    basic.load_theory('list')
+    context.set_context('list', vars={})
+    other_items = [
+        {'ty': 'type.ind', 'name': 'tree1', 'args': ['a'], 'constrs': [
+            {'name': 'Leaf1', 'type': "'a tree1", 'args': []},
+            {'name': 'Node1', 'type': "'a tree1 => 'a => 'a tree1 => 'a tree1", 'args': ['l', 'v', 'r']}]},
+        {'ty': 'type.ind', 'name': 'nest1', 'args': ['a'], 'constrs': [
+            {'name': 'NLeaf', 'type': "'a => 'a nest1", 'args': ['v']},
+            {'name': 'NNode', 'type': "'a list nest1 => 'a nest1", 'args': ['n']}]},
+        {'ty': 'type.ind', 'name': 'alt1', 'args': ['a', 'b'], 'constrs': [
+            {'name': 'AltA', 'type': "'a => ('a, 'b) alt1", 'args': ['v']},
+            {'name': 'AltB', 'type': "('b, 'a) alt1 => ('a, 'b) alt1", 'args': ['w']}]},
+        {'ty': 'type.ind', 'name': 'box1', 'args': ['a'], 'constrs': [
+            {'name': 'Box1', 'type': "'a => 'a box1", 'args': ['v']},
+            {'name': 'NatBox1', 'type': "nat box1 => 'a box1", 'args': ['w']}]},
+        {'ty': 'type.ind', 'name': 'unit1', 'args': [], 'constrs': [{'name': 'Unit1', 'type': 'unit1', 'args': []}]},
+        {'ty': 'type.ind', 'name': 'pair1', 'args': ['a', 'b'], 'constrs': [
+            {'name': 'MkPair1', 'type': "'a => 'b => ('a, 'b) pair1", 'args': ['x', 'y']}]},
+        {'ty': 'def.ind', 'name': 'dbl1', 'type': 'nat => nat', 'rules': [{'prop': 'dbl1 0 = 0'},
+                                                                         {'prop': 'dbl1 (Suc n) = Suc (Suc (dbl1 n))'}]},
+        {'ty': 'def.ind', 'name': 'len1', 'type': "'a list => nat", 'rules': [{'prop': 'len1 [] = 0'},
+                                                                              {'prop': 'len1 (x # xs) = Suc (len1 xs)'}]},
+        {'ty': 'def.pred', 'name': 'ev1', 'type': 'nat => bool', 'rules': [
+            {'name': 'ev1_0', 'prop': 'ev1 0'}, {'name': 'ev1_SS', 'prop': 'ev1 n --> ev1 (Suc (Suc n))'}]},
+        {'ty': 'def.ax', 'name': 'ax1', 'type': "'a => 'a => bool"},
+        {'ty': 'type.ax', 'name': 'opaque1', 'args': ['a']},
+    ]
+    for data in other_items:
+        stats['generated_defs'] += 1
+        try:
+            item = items.parse_item(json.loads(json.dumps(data)))
+        except Exception as e:
+            violations.append({'function': 'server.items.parse_item', 'clause': 'parses',
+                               'what': 'parse_item raises %s: %s' % (type(e).__name__, str(e)[:120]),
+                               'origin': 'generated', 'item': {'ty': data['ty'], 'name': data['name']}})
+            continue
+        distinct.add(json.dumps(data))
+        if item.error is not None:
+            stats['generated_rejected'] += 1
+            continue
+        stats['generated_accepted'] += 1
+        report(check_extension(item, 'generated', data['name']), 'extension-typed', 'generated', data)
+        report(check_roundtrips(item, data), 'roundtrip', 'generated', data)
     basic.load_theory('logic_base')
     context.set_context('logic_base', vars={})
     seen = {}
@@ -338,7 +383,8 @@ def _run(tier, seed, t0, REPO):
     return {'name': 'c11_items',
             'rule': 'items of %d library theories re-parsed in the loaded theory (definition side conditions, extension '
                     'typing on a scratch copy of the theory, both round trips); %d adversarial definitions over theory nat '
-                    '(7 left sides x 16 right sides, 10 polymorphic, 5 overloaded)' % (stats['theories'], len(cases)),
+                    '(7 left sides x 16 right sides, 10 polymorphic, 5 overloaded); 11 generated datatypes (uniform and non-'
+                    'uniform recursion), recursive functions, inductive predicates, axiomatic items' % (stats['theories'], len(cases)),
             'evaluations': stats['library_items'] + stats['generated_defs'], 'distinct_nontrivial': len(distinct),
             'stats': stats, 'samples': samples, 'violations': uniq[:40], 'n_violations': len(uniq),
             'violations_by_clause': by, 'secs': round(time.time() - t0, 1)}
